@@ -357,6 +357,7 @@ pub fn run_phases(cfg: &Cfg, mut phases: Vec<Box<dyn Phase>>, selfcheck: Result<
                     }
                 }
                 crate::observe::clear_last_panic();
+                crate::api::begin_case(Rng::for_case(cfg.seed ^ 0x6374_7873, &name, idx).next());
                 let r = {
                     let phase_ref = &mut *phase;
                     let out_ref = &mut out;
